@@ -1106,13 +1106,21 @@ def expr_fn(
         return parse_binary_or(tok)
 
     tok = get_token()
-    ret = parse_expr(tok)
-    if isinstance(ret, str):
-        return ret
-    if isinstance(ret, float):
-        if ret == math.floor(ret):
-            return str(int(ret))
-    return str(ret)
+    try:
+        ret = parse_expr(tok)
+        if isinstance(ret, str):
+            return ret
+        if isinstance(ret, float):
+            if ret == math.floor(ret):
+                return str(int(ret))
+        return str(ret)
+    except (ValueError, OverflowError, TypeError, ZeroDivisionError):
+        # Domain errors (ln 0, acos 2), overflow (exp 1000, 2^100000),
+        # non-integer digit counts for round etc. are reported in-band
+        return (
+            '<strong class="error">Expression error: '
+            "invalid or out-of-range operand</strong>"
+        )
 
 
 def padleft_fn(
